@@ -210,6 +210,19 @@ def cov():
     return COV if COV is not None else _NoCov()
 
 
+def helper_ok(res, name, probe):
+    '''Probe of a helper-level tie on one fixed input.  False (recorded in the
+    evidence) when the helper is gone, renamed or re-signed.'''
+    try:
+        good = bool(probe())
+    except Exception:      # pylint: disable=broad-except
+        good = False
+    if not good:
+        res.count(f'skipped: helper {name} not present')
+        res.extra.setdefault('skipped_helpers', []).append(name)
+    return good
+
+
 def _repo_funcs():
     from t4_geom_convert.Kernel.Surface import MacroBodies as MB
     return {'box': MB.box, 'rpp': MB.rpp, 'sph': MB.sph, 'rcc': MB.rcc,
@@ -495,6 +508,10 @@ def lit_text(sid, lit):
 def expr_text(sid, expr, top=True):
     if expr[0] == 'lit':
         return lit_text(sid, expr[1])
+    if expr[0] == 'not':           # complement of an expression: #( ... )
+        return '#(' + expr_text(sid, expr[1], True) + ')'
+    if expr[0] == 'cell':          # complement of a sibling cell: #n
+        return f'#{expr[1] + 1}'
     parts = [expr_text(sid, e, False) for e in expr[1]]
     if expr[0] == 'and':
         return ' '.join(parts)
@@ -505,6 +522,10 @@ def expr_text(sid, expr, top=True):
 def expr_lits(expr):
     if expr[0] == 'lit':
         return [expr[1]]
+    if expr[0] == 'not':
+        return expr_lits(expr[1])
+    if expr[0] == 'cell':
+        return expr_lits(expr[2])
     return [l for e in expr[1] for l in expr_lits(e)]
 
 
@@ -515,6 +536,10 @@ def expr_value(expr, vals):
             inside = all(v < 0 for v in vals)
             return inside if sign < 0 else not inside
         return vals[k - 1] * sign > 0
+    if expr[0] == 'not':
+        return not expr_value(expr[1], vals)
+    if expr[0] == 'cell':
+        return not expr_value(expr[2], vals)
     sub = [expr_value(e, vals) for e in expr[1]]
     return all(sub) if expr[0] == 'and' else any(sub)
 
@@ -529,7 +554,7 @@ def expr_ambiguous(expr, vals):
     return False
 
 
-def gen_exprs(rng, nfac):
+def gen_exprs(rng, nfac, complement_cells=False):
     '''Expressions that reference one body in several ways: single references
     for sibling cells and combinations inside one cell.'''
     def lit(sign, k):
@@ -545,8 +570,22 @@ def gen_exprs(rng, nfac):
                   ('or', [lit(1, j), lit(1, k)]),
                   ('and', [lit(-1, k), lit(-1, j), lit(1, None)]),
                   ('and', [lit(-1, j), ('or', [lit(1, k), lit(-1, m)])])]
+    # complements of facets and of expressions holding facets (De Morgan in
+    # the parser: Surface.inverse must keep the facet number)
+    exprs += [('not', lit(1, j)), ('not', lit(-1, k)),
+              ('and', [lit(1, None), ('not', lit(1, j))]),
+              ('not', ('and', [lit(-1, j), lit(1, k)]) if nfac >= 2
+               else lit(-1, None)),
+              ('or', [('not', ('or', [lit(1, j), lit(-1, m)])), lit(1, k)])]
     rng.shuffle(exprs)
-    return exprs[:rng.choice([4, 6, 8])]
+    exprs = exprs[:rng.choice([4, 6, 8])]
+    if complement_cells:
+        # "#n": the complement of a sibling cell that is defined with facets
+        for _ in range(2):
+            j0 = rng.randrange(len(exprs))
+            if exprs[j0][0] != 'cell':
+                exprs.append(('cell', j0, exprs[j0]))
+    return exprs
 
 
 def tr_words(tr):
@@ -557,15 +596,20 @@ def gen_placement(rng, kind=None):
     '''How the cells are moved: (kind, tr, cell keyword text, data cards).'''
     kind = kind or rng.choice(['trcl-inline', 'trcl-inline', 'trcl-shift',
                                'trcl-num', 'trcl-star', 'fill-inline',
-                               'fill-inline', 'fill-num', 'fill-shift'])
+                               'fill-inline', 'fill-num', 'fill-shift',
+                               'plain', 'plain'])
     origin, mat = gen_tr(rng)
     if kind.endswith('shift'):
         mat = list(TR_ROTATIONS[0])
+    if kind == 'plain':          # no transformation at all
+        origin, mat = [0.0, 0.0, 0.0], list(TR_ROTATIONS[0])
     if kind == 'trcl-star':
         mat = list(rng.choice(PERMUTATIONS))
     tr = (origin, mat)
     data = []
-    if kind == 'trcl-inline':
+    if kind == 'plain':
+        key = ''
+    elif kind == 'trcl-inline':
         key = f'trcl=({tr_words(tr)})'
     elif kind == 'trcl-shift':
         key = 'trcl=(' + ' '.join(num(x) for x in origin) + ')'
@@ -591,7 +635,7 @@ def transformed_deck(body, exprs, placement):
     sid, mn, prm = body
     kind, _tr, key, data = placement
     cells, where = [], {}
-    if kind.startswith('trcl'):
+    if kind.startswith('trcl') or kind == 'plain':
         for i, expr in enumerate(exprs):
             cid = i + 1
             cells.append(wrap(f'{cid} 0 {expr_text(sid, expr)} {key} imp:n=1'))
@@ -604,7 +648,7 @@ def transformed_deck(body, exprs, placement):
         cells.append(wrap(f'90 0 -999 {key} imp:n=1'))
         cells.append('91 0 999 imp:n=0')
     surfs = [wrap(f'{sid} {mn} ' + ' '.join(num(x) for x in prm))]
-    if not kind.startswith('trcl'):
+    if kind.startswith('fill'):
         surfs.append('999 so 500')
     text = ('C03 transformed cells\n' + '\n'.join(cells) + '\n\n'
             + '\n'.join(surfs) + '\n\n' + '\n'.join(data)
@@ -616,9 +660,12 @@ def sweep_transformed(body, rng, n_random, n_near, kind=None):
     '''One deck of cells moved by one transformation, all referencing the
     body in different ways.  Same result layout as sweep_deck.'''
     sid, mn, prm = body
-    exprs = gen_exprs(rng, n_facets(mn, prm))
     placement = gen_placement(rng, kind)
     kind, tr = placement[0], placement[1]
+    # "#n" needs the referenced cell in the same frame: plain cells or cells of
+    # one universe (a cell with its own TRCL is moved separately)
+    exprs = gen_exprs(rng, n_facets(mn, prm),
+                      complement_cells=not kind.startswith('trcl'))
     text, where = transformed_deck(body, exprs, placement)
     conv = impl.convert(text)
     out = {'text': text, 'conv': conv, 'failures': [], 'checked': 0,
@@ -894,30 +941,66 @@ def impl_pot_transform(entries, sub, sign, tr, warm=()):
         return _impl_pot_transform_raw(entries, sub, sign, tr, warm)
 
 
+# ---- tie through the public entry point: the whole conversion -----------------
+
+def impl_deck(mn, prm, tr):
+    '''Deck with the body as surface 5 (TR 5 on the card when tr is given) and
+    the cells "-5" / "5": the surfaces of the written volume of cell 1 as
+    (type, parameters, +1 under MINUS / -1 under PLUS), or None.'''
+    card = wrap(f'5 {"5 " if tr else ""}{mn} ' + ' '.join(num(x) for x in prm))
+    data = wrap('tr5 ' + tr_words(tr)) + '\n' if tr else ''
+    text = ('C03 deck tie\n1 0 -5 imp:n=1\n2 0 5 imp:n=0\n\n' + card + '\n\n'
+            + data)
+    conv = impl.convert(text)
+    if not conv.ok or conv.text is None:
+        return None, text
+    t4 = impl.T4File(conv.text)
+    vol = t4.volumes.get(1)
+    if vol is None or t4.errors or vol.get('op'):
+        return None, text
+    out = []
+    for sign, ids in ((1, vol['minus']), (-1, vol['plus'])):
+        for sid in ids:
+            typ, params, trans = t4.surfaces[sid]
+            if trans is not None:
+                return None, text
+            out.append((typ, [float(x) for x in params], sign))
+    return out, text
+
+
 # ---- run ---------------------------------------------------------------------
 
 def run(res, tier, seed, proofs_ok):
     '''Ties and sweeps; the tied calls run under a line-coverage tracer
-    restricted to the anchored functions.'''
-    import c03_cov
+    restricted to the anchored functions.  The coverage pass is information
+    only: whatever goes wrong in it (a renamed private helper, a moved
+    function) is recorded and never decides the verdict.'''
     global COV
-    tracer = COV = c03_cov.LineCov(c03_cov.anchored_functions())
+    tracer = None
+    try:
+        import c03_cov
+        tracer = COV = c03_cov.LineCov(c03_cov.anchored_functions())
+    except Exception as exc:      # pylint: disable=broad-except
+        COV = None
+        res.extra.setdefault('line_coverage', []).append(
+            {'name': 'coverage', 'detail': f'tracer not started: {exc!r}'})
     try:
         _run(res, tier, seed, proofs_ok)
     finally:
         COV = None
-    total, missing = tracer.missing(c03_cov.UNREACHABLE)
-    res.obligation('coverage: the tied calls execute every reachable line of '
-                   f'the anchored functions ({total} lines of '
-                   f'{len(tracer.codes)} code objects)', not missing,
-                   f'never executed: {missing[:6]}')
-    if missing:
-        res.violation('correspondence',
-                      'the tied calls no longer reach these lines of the '
-                      f'anchored code (strengthen the generators): {missing[:8]}',
-                      {'theorem_or_correspondence': 'coverage',
-                       'input': {'lines': [list(m) for m in missing[:30]]}},
-                      found_input=False)
+    if tracer is None:
+        return
+    try:
+        import c03_cov
+        total, missing = tracer.missing(c03_cov.UNREACHABLE)
+        res.obligation('coverage: the tied calls execute every reachable line '
+                       f'of the anchored functions ({total} lines of '
+                       f'{len(tracer.codes)} code objects; names not found: '
+                       f'{c03_cov.MISSING})', not missing,
+                       f'never executed: {missing[:12]}')
+    except Exception as exc:      # pylint: disable=broad-except
+        res.extra.setdefault('line_coverage', []).append(
+            {'name': 'coverage', 'detail': f'coverage pass failed: {exc!r}'})
 
 
 def _run(res, tier, seed, proofs_ok):
@@ -1051,11 +1134,27 @@ def _run(res, tier, seed, proofs_ok):
     cv_cases, cv_meta = [], []
     pt_cases, pt_meta = [], []
     step = 1 if not quick else 2
+    # helper-level ties call functions that are NOT named by the anchors of C03
+    # (to_surface_mcnp, conversion_surface_params, SurfaceCollection.join,
+    # CellConversion's constructor and pot_transform, CollectionDict): a
+    # harmless rewrite may rename or re-sign them.  Each is probed on one
+    # fixed input; when the probe does not answer, the helper tie is skipped
+    # and recorded -- tie:deck below goes through the public entry point
+    # (the whole conversion) and exercises the same code in every run.
+    ident = ([0.0, 0.0, 0.0], list(TR_ROTATIONS[0]))
+    rpp_entries = [('P', [1.0, 0.0, 0.0, 1.0], 1), ('P', [1.0, 0.0, 0.0, -1.0], -1)]
+    cv_on = helper_ok(res, 'to_surface_mcnp/conversion_surface_params/'
+                      'SurfaceCollection.join',
+                      lambda: impl_convert_entry('P', [1.0, 0.0, 0.0, 2.0], 1, None)
+                      == ('ok', [('PLANEX', [2.0], 1)]))
+    pt_on = helper_ok(res, 'CellConversion.pot_transform',
+                      lambda: impl_pot_transform(rpp_entries, 2, 1, ident)[0]
+                      == ('ok', [('PLANEX', [-1.0], -1)]))
     for idx, (mn, prm, fault, out) in enumerate(meta):
         if out[0] != 'ok' or idx % step:
             continue
         tr = gen_tr(rng) if rng.random() < 0.6 else None
-        for ent in out[1]:
+        for ent in (out[1] if cv_on else []):
             got = impl_convert_entry(ent[0], ent[1], ent[2], tr)
             res.count('convert:' + (got[1] if got[0] == 'err'
                                     else '+'.join(t for t, _, _ in got[1])))
@@ -1065,7 +1164,7 @@ def _run(res, tier, seed, proofs_ok):
             cv_cases.append(cpair(clist(cfloat(x) for x in (tr12(tr) if tr else [])),
                                   coq_fentry(ent), coq_t4_out(got)))
             cv_meta.append((mn, prm, ent, tr, got))
-        if fault is None and len(pt_cases) < (250 if quick else 2500):
+        if pt_on and fault is None and len(pt_cases) < (250 if quick else 2500):
             ptr = gen_tr(rng)
             nent = len(out[1])
             sub = rng.choice([None, None] + list(range(0, nent + 2)))
@@ -1108,7 +1207,7 @@ def _run(res, tier, seed, proofs_ok):
                     clist(coq_fentry(e) for e in out[1]),
                     copt(sub, cnat), coq_t4_out(got)))
                 pt_meta.append((mn, prm, sub, ptr, got))
-    for _ in range(12 if quick else 60):
+    for _ in range((12 if quick else 60) if cv_on else 0):
         pts9 = [rng.choice(G.COORDS) for _ in range(9)]
         for ent in (('P', pts9, rng.choice([1, -1])),
                     ('P', pts9[:5], 1), ('S', pts9[:3], 1), ('C', pts9[:6], 1),
@@ -1123,8 +1222,10 @@ def _run(res, tier, seed, proofs_ok):
                                   coq_fentry(ent), coq_t4_out(got)))
             cv_meta.append(('synthetic', [], ent, tr, got))
     bad, errs = run_cases(res, 'c03_convert', 'convert_case', 'check_convert',
-                          cv_cases)
-    res.obligation(f'tie:convert ({len(cv_cases)} entries: to_surface_mcnp + '
+                          cv_cases) if cv_on else ([], [])
+    res.obligation(('tie:convert SKIPPED (helper not present, see tie:deck) '
+                    if not cv_on else '') +
+                   f'tie:convert ({len(cv_cases)} entries: to_surface_mcnp + '
                    'transformation + conversion_surface_params + join = model '
                    'convert_entry at binary64)', not bad and not errs,
                    f'{len(bad)} disagreements {errs[:1]}')
@@ -1142,8 +1243,10 @@ def _run(res, tier, seed, proofs_ok):
                        'theorem_or_correspondence': 'tie:convert'},
                       found_input=False)
     bad, errs = run_cases(res, 'c03_ptransf', 'ptransf_case', 'check_ptransf',
-                          pt_cases)
-    res.obligation(f'tie:pot_transform ({len(pt_cases)} references n / n.k '
+                          pt_cases) if pt_on else ([], [])
+    res.obligation(('tie:pot_transform SKIPPED (helper not present, see the '
+                    'transformed-cell sweep) ' if not pt_on else '') +
+                   f'tie:pot_transform ({len(pt_cases)} references n / n.k '
                    'under a transformation: new collection = model '
                    'pot_transform_ref)', not bad and not errs,
                    f'{len(bad)} disagreements {errs[:1]}')
@@ -1156,6 +1259,52 @@ def _run(res, tier, seed, proofs_ok):
                                  'tr': ptr}, 'observed': got,
                        'theorem_or_correspondence': 'tie:pot_transform'},
                       found_input=False)
+
+    # tie:deck -- public entry point: the written surfaces of the cell "-b"
+    # against body_t4 (body function + conversion of every facet + numbering +
+    # pot_expand_surfs + writer), any order, with and without a TR on the card
+    dk_cases, dk_meta = [], []
+    dk_pool = [(mn, prm) for mn, prm, fault, out in meta
+               if fault is None and out[0] == 'ok'][:(130 if quick else 1500)]
+    for mn, prm in dk_pool:
+        split = split_params(mn, prm)
+        if split is None:
+            continue
+        tr = gen_tr(rng) if rng.random() < 0.4 else None
+        got, text = impl_deck(mn, prm, tr)
+        res.count('deck:' + ('unreadable' if got is None else mn))
+        if got is None:
+            res.violation('impl-violation',
+                          f'deck with the admissible {mn.upper()} {prm} and the '
+                          'cell "-b" is not converted to one plain volume',
+                          {'input': {'deck': text}}, found_input=True)
+            continue
+        dk_cases.append(cpair(
+            clist(cfloat(x) for x in (tr12(tr) if tr else [])), mn.upper(),
+            clist(cfloat(x) for x in split[0]), clist(cn(x) for x in split[1]),
+            clist(cpair(t, clist(cfloat(x) for x in pr), cz(sd))
+                  for t, pr, sd in got)))
+        dk_meta.append((mn, prm, tr, got, text))
+    bad, errs = run_cases(res, 'c03_deck', 'deck_case', 'check_deck', dk_cases)
+    res.obligation(f'tie:deck ({len(dk_cases)} decks: written surfaces of the '
+                   'cell -b = model body_t4 at binary64, through the whole '
+                   'conversion)', not bad and not errs,
+                   f'{len(bad)} disagreements {errs[:1]}')
+    for idx in bad[:5]:
+        mn, prm, tr, got, text = dk_meta[idx]
+        found = False
+        sw = sweep_deck([(5, mn, prm)], random.Random(seed + idx), 150, 8,
+                        trs={5: tr} if tr else None)
+        if sw['failures']:
+            found = True
+            report_failures(res, sw, 'written surfaces differ from the model')
+        if not found:
+            res.violation('correspondence',
+                          f'written surfaces of the cell -b for {mn.upper()} '
+                          f'{prm} (TR {tr}) differ from the model: {got}',
+                          {'input': {'deck': text}, 'observed': got,
+                           'theorem_or_correspondence': 'tie:deck'},
+                          found_input=False)
 
     # to_surfaces_macro: dispatch, order, sides
     from t4_geom_convert.Kernel.Surface.ESurfaceTypeMCNP import \
@@ -1211,7 +1360,9 @@ def _run(res, tier, seed, proofs_ok):
 
     # number_items
     nb_cases, nb_meta = [], []
-    for _ in range(150 if quick else 1500):
+    nb_on = helper_ok(res, 'CollectionDict.number_items',
+                      lambda: impl_number([(5, [1, -1])]) == [(5, [5, -6])])
+    for _ in range((150 if quick else 1500) if nb_on else 0):
         keys = rng.sample(range(1, 60), rng.randint(1, 5))
         dic = [(k, [rng.choice([1, -1])
                     for _ in range(rng.choice([1, 1, 3, 5, 6, 8, 2]))])
@@ -1370,7 +1521,7 @@ def _run(res, tier, seed, proofs_ok):
     # corpus: the RPP of the seeded change C03_B (memo in pot_transform keyed
     # without the facet number) under every kind of placement, then the rest
     kinds = ['fill-shift', 'fill-inline', 'fill-num', 'trcl-shift',
-             'trcl-inline', 'trcl-num', 'trcl-star']
+             'trcl-inline', 'trcl-num', 'trcl-star', 'plain', 'plain']
     for d in range(n_tdecks):
         kind = kinds[d] if d < len(kinds) else None
         mn, prm = fixed[0] if d < len(kinds) else (
